@@ -131,6 +131,9 @@ func checkC02(c *Ctx, r *Report) {
 	r.floor("R2.5", 2)
 	r.floor("R2.6", 18)
 	crc := c.fnMust("packet", "CRC16")
+	// R2.8: decoding and re-encoding a reply depends on the frame alone (no package-level state)
+	sharedStateRule(c, r, "R2.8", "packet response parsers", "response parsing, exception recognition and re-encoding", append(codecRoots(c, "packet", false), crc))
+	r.floor("R2.8", 40)
 	for _, pi := range packetParsers(c, "packet", false) {
 		c02RoundTrip(c, r, pi, crc, false)
 	}
